@@ -374,7 +374,38 @@ def no_lock_across_payload(chk, fns):
         chk.ok(rule, "<execute chain>", "no function on the execute chain runs or forwards the payload inside a threading lock section (%d lock sections in its modules)" % len(secs))
 
 
+def payload_is_opaque(chk):
+    """O10.7: the execute chain treats the payload as an opaque callable.  Using it as a dictionary key / set member (its
+    __hash__ and __eq__ are the caller's: an unhashable callable never runs, two equal payloads executed at the same time
+    share one entry) or cleaning up such bookkeeping in a `finally` (a KeyError there replaces the payload's result or
+    exception) changes the outcome the caller sees"""
+    prog = chk.program
+    rule = "O10.7"
+    fns, _runners = chain_functions(chk)
+    n = 0
+    ok = True
+    for label, fi in fns:
+        ps = [p for p in fi.params() if p in ("payload",)] or fi.params()[:1]
+        if not ps:
+            continue
+        pay = ps[0]
+        par = util.parents_map(fi.node)
+        for x in ast.walk(fi.node):
+            if not (isinstance(x, ast.Name) and x.id == pay and isinstance(x.ctx, ast.Load)):
+                continue
+            n += 1
+            chk.count()
+            up = par.get(id(x))
+            keyed = (isinstance(up, ast.Subscript) and up.slice is x) or (isinstance(up, ast.Call) and x in up.args and isinstance(up.func, ast.Attribute) and up.func.attr in ("add", "discard", "remove", "setdefault", "pop", "index", "count")) or (isinstance(up, ast.Compare) and any(isinstance(o, (ast.In, ast.NotIn, ast.Eq, ast.NotEq)) for o in up.ops)) or (isinstance(up, (ast.Set, ast.Dict)))
+            if keyed:
+                chk.bad(rule, fi.qual, "%s uses the payload as a key / member / comparand (%s): an unhashable callable is refused before it runs, two equal payloads executed at the same time share one entry, and removing the entry in a cleanup block raises KeyError in place of the payload's own result or exception" % (label, util.unparse(up)[:60]), node=x, stmt="payload-keyed in %s" % fi.name)
+                ok = False
+    if ok:
+        chk.ok(rule, "<execute chain>", "%d uses of the payload on the execute chain: it is only bound, handed on and called" % n)
+
+
 def run(chk):
+    chk.guard("O10.7", "<execute chain>", payload_is_opaque, chk)
     res = chk.guard("O10.1", "<execute chain>", identity_and_transparency, chk)
     if res:
         chk.guard("O10.6", "<execute chain>", no_lock_across_payload, chk, res[0])
